@@ -103,7 +103,11 @@ NOT_YET = {}     # (kind -> function names whose definition obligations are not 
 def run_task(eng, prover, task, out):
     pid = task["props"][0]
     P = eng.P
-    for fname in task["functions"]:
+    jobs = [(f, False) for f in task["functions"]]
+    if eng.R["classes"][task["cname"]]["isa"].get("BufferedCollection"):
+        # the buffered cases of _load / _save (C05): a second run from a state in buffered mode
+        jobs += [(f, True) for f in task["functions"] if f in ("_load", "_save")]
+    for (fname, bufmode) in jobs:
         s = scn.make_scene(eng, task["cname"], task["role"], task["rootkind"])
         st = s.st
         fam = scn.family(eng, s.cls)
@@ -121,7 +125,7 @@ def run_task(eng, prover, task, out):
             out["unsupported"].append({"instance": f"{task['cname']}.{fname}/{task['role']}", "reason": "no contract"})
             continue
         role = task["role"] if task["role"] == "root" else f"nested-in-{task['rootkind']}"
-        base = f"{task['cname']}.{fname}@{fi.qualname}/{role}"
+        base = f"{task['cname']}.{fname}{'[buffered]' if bufmode else ''}@{fi.qualname}/{role}"
         args = [s.self_]
         if fname == "_validate":
             t = smt.fresh("arg_data")
@@ -140,11 +144,19 @@ def run_task(eng, prover, task, out):
             args = [ClassV(s.cls), Z(t, None, {"plain": True})]
             kwargs = {"parent": s.self_}
         assume = []
-        if s.buffered and fname in ("_load", "_save"):
-            # unbuffered mode; the buffered mode of these functions is verified under C05
+        if s.buffered and fname in ("_load", "_save") and not bufmode:
+            # unbuffered mode
             for a, rec in st.objs.items():
                 if rec.tag.startswith("buffered:") or rec.tag.startswith("bufctx:"):
                     assume.append(as_int(rec.fields["_count"]) == 0)
+        if bufmode:
+            from props import buffers as PB
+            PB.buffer_inv(eng, s, st, s.root)
+            st.ghost["skolem_files"] = [s.other_file]
+            rrec = st.rec(s.root)
+            bobj = as_int(st.rec(rrec.fields["buffered"]).fields["_count"])
+            bctx = as_int(st.rec(st.statics[(rrec.cls.name, "_buffer_context")]).fields["_count"])
+            assume.append(z3.Or(bobj > 0, bctx > 0))
         try:
             n = verify_contract(eng, prover, pid, base, fi, contract, st, args, kwargs, assume=assume)
             out["paths"] += n
